@@ -29,19 +29,31 @@ PROVED (model, all inputs):
   `#recv:e` followed by records of e's own transitions / eventless follow-ups only: macrosteps are never
   interleaved, each event is settled before the next is dequeued (unconditional: also when the budget
   cuts, a macrostep raises, or the machine completes);
-* `fifo_exactly_once` (sync), `fifo_exactly_once_async`, `fifo_exactly_once_queued` — when nothing cuts
+* `fifo_exactly_once` (sync), `fifo_exactly_once_async_clean`, `fifo_exactly_once_queued` — when nothing cuts
   the drain short (`DrainClean` / `AsyncClean`: the bound `maxIterations` is not reached, the machine
   keeps running, sync: no macrostep raises an error; these are the side conditions C13 / C10 / C07 govern)
   the events received are EXACTLY the accepted ones, in order, each once, followed by the raised events
   in raise order, and nothing is left queued;
+* async, EXTERNAL events, with NO side condition on the bound (repairs F30): `async_external_never_dropped`
+  — an external event the run loop dequeues is always processed (`#recv:` written, macrostep run), chain
+  breaker tripped or not; `external_exactly_once_async` — for every fuel, counter and machine the external
+  events received, followed by those still queued when the loop returns, ARE the external events that
+  were queued, in order; `fifo_exactly_once_async` — every accepted external event is received exactly
+  once, in order, when `send_events` returns with the interpreter still "running" (and in general a
+  prefix of them is, the rest still being queued: the machine completed or the model's fuel ran out);
+* async `start()` (repairs F42): `async_start_settles_before_loop` — `start()` is the initial entry, then
+  the eventless settling, with nothing dequeued in between (whatever was queued or is raised meanwhile
+  stays queued, in order, behind what was there), and ONLY THEN, and only if the interpreter is still
+  running, the run loop (`loop` of the interpreter object says whether the task was created);
 * `send_is_sendMany_singleton`, `sync_sendMany_is_one_drain`, and by example `sendMany_differs_from_sends`:
   `send_events([a, b])` queues both and drains once, so what `a` raises runs AFTER `b`, whereas
   `send(a); send(b)` runs it before `b` (both engines at the model's quiescent observation points);
-* the counterexamples: `sync_burst_over_bound_loses_events` (F10: the sync drain budget counts every
+* the counterexample `sync_burst_over_bound_loses_events` (F10: the sync drain budget counts every
   dequeued event, so of a burst longer than `maxIterations` only `maxIterations` events are received and
-  the rest is discarded — accepted, never processed, no longer queued) with a concrete run;
-  `async_breaker_drops_any_event` (F30: when the async chain breaker trips, the event just dequeued is
-  dropped whether or not it was self-raised) with a concrete run in which an EXTERNAL event vanishes;
+  the rest is discarded — accepted, never processed, no longer queued) with a concrete run; the former
+  async counterexample (F30: the chain breaker dropped the event in hand whatever its origin) is gone:
+  `async_breaker_drops_only_self_raised` says what the breaker does now, with the old witness run
+  showing the external event received;
 * `SyncFlag` (two threads executing `append; if flag: return; flag := True; drain; flag := False` at
   statement granularity): `mutual_exclusion_fails` (test-then-set: a schedule puts both threads inside
   the drain — the formal counterpart of F18), `mutual_exclusion_atomic` (with test-and-set atomic: for
@@ -51,8 +63,11 @@ PROVED (model, all inputs):
 
 NOT exhibited by the model, VALIDATED only (harness `xsmverif/c14.py::c04_ordering`, every run): sends
 that arrive while a macrostep is in flight (async producer tasks against sleeping coroutine actions) —
-the model observes at quiescent points, there is no suspension inside a macrostep, which is also why it
-cannot show F42 (async `start()` lets the run loop process events during the initial entry); timers,
+the model observes at quiescent points, there is no suspension inside a macrostep (the defect F42 — the
+run loop processing events in the middle of the initial entry when an entry coroutine suspends — needed
+one; with the loop created after the settling there is no loop to suspend into, which is what
+`async_start_settles_before_loop` states; the harness runs starts with suspending entry coroutines and
+pre-sent / raised events on the real engine, replay `findings/F42_async_start_runs_loop_during_entry.json`); timers,
 services and actors as producers; real threads. `SyncFlag` interleaves at Python-STATEMENT granularity:
 byte-code-level preemption and the OS scheduler are not exhibited. Record shapes: a user action NAMED
 `#recv:…` would write records that look like receive records; `rtc_structure` speaks about the position
@@ -114,7 +129,7 @@ theorem drain_pops_head (m : Machine) (u : UEnv) (budget : Nat) (s : St) (q : QE
 /-- the async run loop likewise: one `asyncStep` (process + settle) per dequeued event -/
 theorem async_loop_pops_head (m : Machine) (u : UEnv) (fuel : Nat) (s : St) (q : QEv) (rest : List QEv)
     (hq : s.queue = q :: rest) (hrun : s.status = "running") :
-    asyncDrain m u (fuel + 1) s = asyncDrain m u fuel (asyncStep m u q.ev { s with queue := rest }) :=
+    asyncDrain m u (fuel + 1) s = asyncDrain m u fuel (asyncStep m u q { s with queue := rest }) :=
   asyncDrain_cons m u fuel s q rest hq hrun
 
 /-! ## 2. sends made during processing -/
@@ -140,10 +155,10 @@ theorem send_during_processing_only_enqueues (u : UEnv) (m : Machine) (e : Ev) (
 /-- *"Events that actions raise … are handled after the current event"*: whatever the macrostep of `e`
     raises (any number of `raise`s, `done.state.*` events, from transition, exit and entry actions and
     from the eventless follow-ups) is appended BEHIND everything that was already queued -/
-theorem raised_after_current (m : Machine) (u : UEnv) (e : Ev) (s : St) :
+theorem raised_after_current (m : Machine) (u : UEnv) (e : Ev) (q : QEv) (s : St) :
     (syncMacro m u e s).queue = s.queue ++ raisedBy m u e s ∧
-    (¬ s.raiseDepth > m.maxIterations → (asyncStep m u e s).queue = s.queue ++ asyncRaisedBy m u e s) :=
-  ⟨syncMacro_queue m u e s, asyncStep_queue_eq m u e s⟩
+    (¬ s.raiseDepth > m.maxIterations → (asyncStep m u q s).queue = s.queue ++ asyncRaisedBy m u q s) :=
+  ⟨syncMacro_queue m u e s, asyncStep_queue_eq m u q s⟩
 
 /-! ## 3. run to completion: what a drain writes -/
 
@@ -211,8 +226,9 @@ theorem fifo_exactly_once (m : Machine) (u : UEnv) (es : List Ev) (l : LSt) (hru
   · exact drain_chron m u _ _
   · rw [drainSegs_events]; exact hlog
 
-/-- **FIFO, exactly once** (async, interpreter with its run loop attached) -/
-theorem fifo_exactly_once_async (m : Machine) (u : UEnv) (es : List Ev) (l : LSt) (hrun : l.st.status = "running")
+/-- **FIFO, exactly once, everything** (async, interpreter with its run loop attached, nothing cuts the
+    loop short): the accepted events, then the raised ones, each once, in order -/
+theorem fifo_exactly_once_async_clean (m : Machine) (u : UEnv) (es : List Ev) (l : LSt) (hrun : l.st.status = "running")
     (hl : l.loop = true) (hq : l.st.queue = []) (hclean : AsyncClean m u (asyncFuel m) (pushAll es l.st)) :
     asyncLog m u (asyncFuel m) (pushAll es l.st) = es ++ asyncRaised m u (asyncFuel m) (pushAll es l.st) ∧
     (opSendMany .async m u es l).st.queue = [] := by
@@ -223,7 +239,100 @@ theorem fifo_exactly_once_async (m : Machine) (u : UEnv) (es : List Ev) (l : LSt
   rw [async_sendMany_is_enqueue_then_loop m u es l hrun hl]
   exact ⟨h1, h2⟩
 
-/-! ## 5. counterexamples: events CAN be lost (findings F10, F30) -/
+/-- **an EXTERNAL event that is dequeued is always processed** — chain breaker tripped or not. The
+    iteration that takes the external entry `q` off the queue hands it to `on_event_received` /
+    `_process_event`: it appears in the log of received events, the state after the iteration is
+    `asyncProcess` of it (run from the purged state if the breaker fired, `asyncBase`), and the trace
+    shows `#recv:q` followed by the records of q's own macrostep only. -/
+theorem async_external_never_dropped (m : Machine) (u : UEnv) (fuel : Nat) (s : St) (q : QEv) (rest : List QEv)
+    (hq : s.queue = q :: rest) (hrun : s.status = "running") (hext : q.self = false) :
+    asyncLogQ m u (fuel + 1) s = q :: asyncLogQ m u fuel (asyncStep m u q { s with queue := rest }) ∧
+    asyncStep m u q { s with queue := rest } = asyncProcess m u q.ev (Term.asyncBase m { s with queue := rest }) ∧
+    (asyncStep m u q { s with queue := rest }).chron =
+      s.chron ++ ("#recv:" ++ q.ev.type) :: asyncMacroRecords m u q.ev (Term.asyncBase m { s with queue := rest }) ∧
+    (∀ r ∈ asyncMacroRecords m u q.ev (Term.asyncBase m { s with queue := rest }),
+      TransRec q.ev.type r ∨ TransRec "" r) := by
+  have hstep := Term.asyncStep_external m u q { s with queue := rest } hext
+  refine ⟨?_, hstep, ?_, (asyncProcess_chron m u q.ev _).2⟩
+  · rw [asyncLogQ_cons m u fuel s q rest hq hrun, if_pos (asyncReceives_external m q s hext)]; rfl
+  · rw [hstep, (asyncProcess_chron m u q.ev _).1, asyncBase_chron]; rfl
+
+/-- **external events: exactly once, in order — for every fuel, counter, machine and user code.** The
+    external events the run loop received, followed by the external events still queued when it returns,
+    are exactly the external events that were queued when it started. Nothing on the way — the chain
+    breaker, failing macrosteps, the machine completing — loses, duplicates or reorders one. -/
+theorem external_exactly_once_async (m : Machine) (u : UEnv) (fuel : Nat) (s : St) :
+    Term.extOf (asyncLogQ m u fuel s) ++ Term.extOf (asyncDrain m u fuel s).queue = Term.extOf s.queue :=
+  async_external_split m u fuel s
+
+/-- **FIFO, exactly once** (async, interpreter with its run loop attached; NO hypothesis on the bound or
+    on what the events raise). Of a burst `es` accepted by an idle running interpreter: the external
+    events received by the loop are a prefix of `es`, the rest is still queued, in order; and if the call
+    leaves the interpreter "running" they are ALL received — exactly `es`, each once, in order — and
+    nothing is left queued. (Not "running" afterwards means: the machine completed — C10 —, or the
+    MODEL's fuel ran out, status "HANG" — C13 `asyncDrain_no_hang` bounds that.) -/
+theorem fifo_exactly_once_async (m : Machine) (u : UEnv) (es : List Ev) (l : LSt) (hrun : l.st.status = "running")
+    (hl : l.loop = true) (hq : l.st.queue = []) :
+    ((Term.extOf (asyncLogQ m u (asyncFuel m) (pushAll es l.st))).map (·.ev) ++
+        (Term.extOf (opSendMany .async m u es l).st.queue).map (·.ev) = es) ∧
+    ((opSendMany .async m u es l).st.status = "running" →
+      (Term.extOf (asyncLogQ m u (asyncFuel m) (pushAll es l.st))).map (·.ev) = es ∧
+      (opSendMany .async m u es l).st.queue = []) := by
+  have hsplit := async_external_split m u (asyncFuel m) (pushAll es l.st)
+  have hqq : (Term.extOf (pushAll es l.st).queue).map (·.ev) = es := by
+    simp [pushAll, hq, Term.extOf, List.filter_map, List.map_map, Function.comp_def]
+  rw [async_sendMany_is_enqueue_then_loop m u es l hrun hl]
+  have h1 : (Term.extOf (asyncLogQ m u (asyncFuel m) (pushAll es l.st))).map (·.ev) ++
+      (Term.extOf (asyncDrain m u (asyncFuel m) (pushAll es l.st)).queue).map (·.ev) = es := by
+    rw [← List.map_append, hsplit, hqq]
+  refine ⟨h1, fun hr => ?_⟩
+  have hnil := Term.asyncDrain_running_queue_nil m u _ _ hr
+  rw [hnil] at h1
+  exact ⟨by simpa [Term.extOf] using h1, hnil⟩
+
+/-! ## 4b. async `start()`: entry and settling first, the run loop only afterwards (repairs F42) -/
+
+/-- **`start()` performs the initial entry and the eventless settling with no event dequeued in between;
+    the run loop exists only afterwards.** For an uninitialized async interpreter: the state after
+    `start()` is `asyncStartSettle` (entry, then settling — a failure stops the interpreter) and, only if
+    that left it "running", the run loop applied to it; the loop task is attached exactly in that case;
+    and through entry and settling the queue is only appended to — what was queued before (events sent
+    before `start()`) is still there, in order, in front of whatever entry actions raised. -/
+theorem async_start_settles_before_loop (m : Machine) (u : UEnv) (l : LSt) (h0 : l.st.status = "uninitialized")
+    (hl : l.loop = false) :
+    (opStart .async m u l).st =
+      (if (asyncStartSettle m u l.st).status = "running" then
+         asyncDrain m u (asyncFuel m) (asyncStartSettle m u l.st)
+       else asyncStartSettle m u l.st) ∧
+    ((opStart .async m u l).loop = true ↔ (asyncStartSettle m u l.st).status = "running") ∧
+    (∃ added, (asyncStartSettle m u l.st).queue = l.st.queue ++ added ∧ ∀ q ∈ added, q.self = false) := by
+  have hres : asyncResumes l = false := by simp [asyncResumes, h0]
+  have hraises : startRaises l = false := by simp [startRaises, h0]
+  have hst : opStart .async m u l = { st := asyncStart m u l.st, loop := asyncLoopCreated m u l.st } := by
+    simp [opStart, hres, hraises, h0]
+  rw [hst]
+  refine ⟨rfl, by simp [asyncLoopCreated], ?_⟩
+  have hg := Term.asyncStartSettled_grow m u l.st
+  have he : Term.Grow false { l.st with status := "running", ctx := m.ctx0 } (asyncStartEntered m u l.st) := by
+    unfold asyncStartEntered
+    simp only
+    generalize startEntries m = se
+    obtain ⟨es, e⟩ := se
+    simp only
+    have h1 := Term.foldl_grow (b := false)
+      (enterOne (hooksAsyncStart u m) .async m (some "___xstate_statemachine_init___"))
+      (Term.enterOne_grow _ (Term.hooksAsyncStart_grow u m) .async m _) es { l.st with status := "running", ctx := m.ctx0 }
+    split
+    · exact h1.trans (Term.fail_grow _ _ _)
+    · exact h1
+  unfold asyncStartSettle
+  split
+  · obtain ⟨⟨a, ha, hf, _⟩, _⟩ := he; exact ⟨a, ha, hf⟩
+  · split
+    · obtain ⟨⟨a, ha, hf, _⟩, _⟩ := hg; exact ⟨a, ha, hf⟩
+    · obtain ⟨⟨a, ha, hf, _⟩, _⟩ := hg; exact ⟨a, ha, hf⟩
+
+/-! ## 5. the sync drain budget CAN lose events (finding F10); the async chain breaker cannot (F30, repaired) -/
 
 /-- **F10** — the sync drain budget counts EVERY dequeued event. Of a burst that makes the queue longer
     than `maxIterations`, at most `maxIterations` events are received by the call (strictly fewer than
@@ -241,22 +350,33 @@ theorem sync_burst_over_bound_loses_events (m : Machine) (u : UEnv) (es : List E
   · rw [sync_sendMany_is_one_drain m u es l hrun]
     exact drainLoop_queue_nil m u _ _
 
-/-- **F30** — when the async chain breaker trips (`_raise_depth > maxIterations`) the event just dequeued is
-    dropped unprocessed WHETHER OR NOT it was self-raised (`q.self` is not consulted), together with the
-    self-raised events still queued -/
-theorem async_breaker_drops_any_event (m : Machine) (u : UEnv) (fuel : Nat) (s : St) (q : QEv) (rest : List QEv)
+/-- **what the async chain breaker does** (after the repair of F30; the former counterexample
+    `async_breaker_drops_any_event` no longer holds): when it trips (`_raise_depth > maxIterations`) the
+    self-raised events still queued are purged and the counter reset; the event just dequeued is dropped
+    unprocessed ONLY IF it is itself self-raised — an external one is processed, from the purged state. -/
+theorem async_breaker_drops_only_self_raised (m : Machine) (u : UEnv) (fuel : Nat) (s : St) (q : QEv) (rest : List QEv)
     (hq : s.queue = q :: rest) (hrun : s.status = "running") (hd : s.raiseDepth > m.maxIterations) :
-    asyncLog m u (fuel + 1) s =
-      asyncLog m u fuel { s with raiseDepth := 0, queue := rest.filter (fun x => !x.self) } ∧
-    asyncDrain m u (fuel + 1) s =
-      asyncDrain m u fuel { s with raiseDepth := 0, queue := rest.filter (fun x => !x.self) } := by
-  have hs : asyncStep m u q.ev { s with queue := rest } =
-      { s with raiseDepth := 0, queue := rest.filter (fun x => !x.self) } := by
-    unfold asyncStep
-    have : ({ s with queue := rest } : St).raiseDepth > m.maxIterations := hd
-    rw [if_pos this]
-  rw [asyncLog_cons m u fuel s q rest hq hrun, asyncDrain_cons m u fuel s q rest hq hrun, hs, if_pos hd]
-  exact ⟨rfl, rfl⟩
+    (q.self = true →
+      asyncLogQ m u (fuel + 1) s =
+        asyncLogQ m u fuel { s with raiseDepth := 0, queue := rest.filter (fun x => !x.self) } ∧
+      asyncDrain m u (fuel + 1) s =
+        asyncDrain m u fuel { s with raiseDepth := 0, queue := rest.filter (fun x => !x.self) }) ∧
+    (q.self = false →
+      asyncLogQ m u (fuel + 1) s = q ::
+        asyncLogQ m u fuel (asyncProcess m u q.ev { s with raiseDepth := 0, queue := rest.filter (fun x => !x.self) }) ∧
+      asyncDrain m u (fuel + 1) s =
+        asyncDrain m u fuel (asyncProcess m u q.ev { s with raiseDepth := 0, queue := rest.filter (fun x => !x.self) })) := by
+  have hd' : m.maxIterations < ({ s with queue := rest } : St).raiseDepth := hd
+  rw [asyncLogQ_cons m u fuel s q rest hq hrun, asyncDrain_cons m u fuel s q rest hq hrun]
+  constructor
+  · intro hself
+    have hr : ¬ asyncReceives m q s = true := by
+      rw [asyncReceives_eq_true]; exact fun h => h ⟨hd, hself⟩
+    rw [if_neg hr, Term.asyncStep_above_bound_self m u q _ hd' hself]
+    exact ⟨rfl, rfl⟩
+  · intro hext
+    rw [if_pos (asyncReceives_external m q s hext), Term.asyncStep_above_bound_ext m u q _ hd' hext]
+    exact ⟨rfl, rfl⟩
 
 namespace Ex
 open XSM.Done.Ex
@@ -293,17 +413,25 @@ example : (tr0 (opSendMany .sync burstM exB [.user "B", .user "B", .user "B"] (s
      (opSendMany .sync burstM exB [.user "B", .user "B", .user "B"] (started .sync burstM)).st.err.isSome) =
       (["#recv:B", "tB@B", "#t:m,m.a", "#recv:B", "tB@B", "#t:m,m.a"], 0, "running", false) := by decide
 
-/-- F30, concretely (replay `findings/F30_async_chain_breaker_drops_external.json`): `A A A B`, bound 2 —
-    each `A` raises one harmless `R`; the depth counter is not reset while an `R` is queued, so it stands
-    at 3 when the EXTERNAL `B` is dequeued: `B` is dropped (and the three `R`s are purged) -/
+/-- the former F30 witness (replay `findings/F30_async_chain_breaker_drops_external.json`), REPAIRED outcome:
+    `A A A B`, bound 2 — each `A` raises one harmless `R`; the depth counter is not reset while an `R` is
+    queued, so it stands at 3 when the EXTERNAL `B` is dequeued: the breaker fires, the three `R`s are
+    purged — and `B` is received and processed (`tB` runs); before the repair `B` vanished with them -/
 example : (tr0 (opSendMany .async burstM exB [.user "A", .user "A", .user "A", .user "B"] (started .async burstM)),
      (opSendMany .async burstM exB [.user "A", .user "A", .user "A", .user "B"] (started .async burstM)).st.queue.length,
      (opSendMany .async burstM exB [.user "A", .user "A", .user "A", .user "B"] (started .async burstM)).st.status) =
-      (["#recv:A", "tA@A", "#t:m,m.a", "#recv:A", "tA@A", "#t:m,m.a", "#recv:A", "tA@A", "#t:m,m.a"], 0, "running") := by
+      (["#recv:A", "tA@A", "#t:m,m.a", "#recv:A", "tA@A", "#t:m,m.a", "#recv:A", "tA@A", "#t:m,m.a",
+        "#recv:B", "tB@B", "#t:m,m.a"], 0, "running") := by
   decide
+/-- … `fifo_exactly_once_async` at work on it: all four external events received, in order -/
+example : (Term.extOf (asyncLogQ burstM exB (asyncFuel burstM)
+      (pushAll [.user "A", .user "A", .user "A", .user "B"] (started .async burstM).st))).map (·.ev) =
+    [.user "A", .user "A", .user "A", .user "B"] := by decide
+/-- `start()` attached the run loop (the interpreter was still running once entry and settling were over) -/
+example : (started .async burstM).loop = true := by decide
 
 /-- … with room the same kind of burst is received completely, in order, and the raised events after it
-    (`fifo_exactly_once` / `fifo_exactly_once_async` at work), the same in both engines … -/
+    (`fifo_exactly_once` / `fifo_exactly_once_async_clean` at work), the same in both engines … -/
 example : tr0 (opSendMany .sync roomyM exB [.user "A", .user "A", .user "B"] (started .sync roomyM)) =
     ["#recv:A", "tA@A", "#t:m,m.a", "#recv:A", "tA@A", "#t:m,m.a", "#recv:B", "tB@B", "#t:m,m.a",
      "#recv:R", "tR@R", "#t:m,m.a", "#recv:R", "tR@R", "#t:m,m.a"] := by decide
@@ -311,9 +439,10 @@ example : tr0 (opSendMany .async roomyM exB [.user "A", .user "A", .user "B"] (s
     ["#recv:A", "tA@A", "#t:m,m.a", "#recv:A", "tA@A", "#t:m,m.a", "#recv:B", "tB@B", "#t:m,m.a",
      "#recv:R", "tR@R", "#t:m,m.a", "#recv:R", "tR@R", "#t:m,m.a"] := by decide
 
-/-- the hypotheses of `fifo_exactly_once` / `fifo_exactly_once_async` hold of these runs (the theorems are
-    not vacuous), and they fail of the F10 / F30 runs above — that is exactly what `DrainClean` /
-    `AsyncClean` say -/
+/-- the hypotheses of `fifo_exactly_once` / `fifo_exactly_once_async_clean` hold of these runs (the theorems
+    are not vacuous), and they fail of the F10 run / the breaker run above — that is exactly what
+    `DrainClean` / `AsyncClean` say (in the breaker run the raised `R`s are purged, so "everything raised
+    is received" fails; the EXTERNAL events are all received nonetheless) -/
 example : DrainClean roomyM exB roomyM.maxIterations
     (pushAll [.user "A", .user "A", .user "B"] (started .sync roomyM).st) := by decide
 example : AsyncClean roomyM exB (asyncFuel roomyM)
